@@ -29,7 +29,24 @@ print(hashlib.sha256(s.encode()).hexdigest()[:16], d['runs'], len(d['hashes']))"
       if [ "$h" != "$ref" ]; then echo "NONDETERMINISTIC $p procs=$procs rep=$rep: $h vs $ref"; rc=2; fi
     done
   done
-  echo "$p $ref"
+  # batch against single execution: a sample of the batch's runs is executed
+  # again, each in a process of its own (vsim one), and must give the hash it
+  # had inside the batch (state leaking from one run of a batch into the next
+  # would make a violation a function of its position in the batch, and its
+  # replay file useless)
+  out=$B/selftest/$p/single
+  rm -rf $out; mkdir -p $out
+  $BIN run -prop $p -seed 7 -worker 1 -workers 3 -maxruns $((N<600?N:600)) -seconds 300 -out $out -replays $out/replays -known /verif/known_findings.json -dumphashes $out/hashes.txt >/dev/null 2>$out/err
+  bad=0; checked=0
+  # (the last SINGLES runs of each profile: leaks show in later runs, not in the first)
+  for line in $(awk '$1 >= 0 {print $1":"$2":"$3":"$5}' $out/hashes.txt | tac | awk -F: '{n[$4]++; if (n[$4] <= '${SINGLES:-4}') print}'); do
+    seed=$(echo $line | cut -d: -f2); want=$(echo $line | cut -d: -f3)
+    got=$($BIN one -prop $p -runseed $seed -tier quick 2>/dev/null | grep -o 'hash=[0-9a-f]*' | tail -1 | cut -d= -f2)
+    checked=$((checked+1))
+    if [ "$got" != "$want" ]; then echo "BATCH-DEPENDENT $p run $(echo $line | cut -d: -f1) ($(echo $line | cut -d: -f4)) seed $seed: hash $want in the batch, $got alone"; bad=1; fi
+  done
+  [ $bad = 1 ] && rc=2
+  echo "$p $ref singles_checked=$checked"
 done
 rm -rf $B/selftest
 exit $rc
